@@ -150,6 +150,20 @@ theorem spectral_adjacency_symmetric (nRow nCol : Nat) (b : Mat α) (fb : Bool) 
       rw [List.all_eq_true] at this
       exact beq_iff_eq.mp (this j (List.mem_range.mpr hj))
 
+/-- **the Laplacian of a symmetric matrix is self-adjoint** (`Laplacian._transpose` returns the operator itself, and
+    `eigsh` is given a symmetric operator): `⟨y, L x⟩ = ⟨x, L y⟩` for `L = D_reg − A_reg` when `A` is symmetric. -/
+theorem laplacian_self_adjoint (n : Nat) (a : Mat α) (reg : α) (hsym : ∀ i j, i < n → j < n → mget a i j = mget a j i)
+    (x y : Nat → α) :
+    ∑ i ∈ range n, y i * Spec.lapApply n a reg x i = ∑ i ∈ range n, x i * Spec.lapApply n a reg y i := by
+  simp only [Spec.lapApply, sumN_eq_sum, mul_sub, Finset.sum_sub_distrib, Finset.mul_sum]
+  congr 1
+  · exact Finset.sum_congr rfl fun i _ => by ring
+  · rw [Finset.sum_comm]
+    refine Finset.sum_congr rfl fun i hi => Finset.sum_congr rfl fun j hj => ?_
+    simp only [Spec.aReg]
+    rw [hsym j i (Finset.mem_range.mp hj) (Finset.mem_range.mp hi)]
+    ring
+
 /-- **the trivial pair**: on a node of non-zero (regularised) degree the constant vector is reproduced by the
     transition matrix, and it is annihilated by the Laplacian — `(1, 1)` resp. `(0, 1)` is the pair that the
     documentation calls "the first", the one `Spectral` skips. -/
@@ -750,6 +764,24 @@ theorem randomProjection_fit (F : Fn α) (nRow nCol : Nat) (b : Mat α) (nnz : N
       refine ⟨fun _ i hi => hcf i c hi hc, fun ht => ?_⟩
       rw [hb'] at ht; cases ht
 
+/-- **C09 / RandomProjection, unit norm**: with `normalized=True` every row of the embedding whose closed form is
+    non-null has Euclidean norm 1. -/
+theorem randomProjection_unit_norm (F : Fn α) (n : Nat) (hn : 0 < n) (adjacency : Mat α) (reg alpha : α)
+    (hreg : 0 ≤ reg) (K : Nat) (rw : Bool) (q : Mat α) (i : Nat) (hi : i < n) :
+    let k := (q.getD 0 []).length
+    let closed := mkMat n k (Spec.rpClosedForm n (Spec.rpMultiplierEntry n adjacency reg rw) alpha (mget q) K)
+    F.sqrt (sqNorm k closed i) * F.sqrt (sqNorm k closed i) = sqNorm k closed i →
+    (∃ c, c < k ∧ mget closed i c ≠ 0) →
+    sqNorm k (rpEmbedding F n adjacency reg alpha K rw true q) i = 1 := by
+  intro k closed hsq hnn
+  have hcf := randomProjection_closed_form F n hn adjacency reg alpha hreg K rw true q
+  simp only [if_true] at hcf
+  have : sqNorm k (rpEmbedding F n adjacency reg alpha K rw true q) i = sqNorm k (normalize2 F n k closed) i := by
+    unfold sqNorm
+    exact Finset.sum_congr rfl fun c hc => by rw [hcf i c hi (Finset.mem_range.mp hc)]
+  rw [this]
+  exact (normalize_unit F n k closed i hi hsq).1 hnn
+
 /-- the regularisation handed to the multiplier by `RandomProjection.fit` / `Spectral.fit` is never negative -/
 theorem effective_regularization_nonneg (reg : α) (c : Bool) : 0 ≤ getRegularization reg c :=
   getRegularization_nonneg reg c
@@ -774,6 +806,29 @@ theorem louvainEmbedding_fit (nRow nCol : Nat) (a : Mat α) (ln lr lc : List Nat
     (i c : Nat) (hi : i < nRow) (hc : c < membershipCols out.labels) :
     mget out.embedding i c = Spec.louvainEntry nCol a out.labels i c :=
   louvainEmbFit_entry nRow nCol a ln lr lc which h i c hi hc
+
+/-- **`reindex_labels(which='remove')`** (the default `isolated_nodes`): it always succeeds on a square input; node `v`
+    gets label `-1` exactly when its Louvain cluster is a singleton, and two nodes that keep a label share the new label
+    exactly when they shared the old one. -/
+theorem louvain_reindex_remove (labels : List Nat) :
+    ∃ prim : List Int, reindexLabels labels none .remove = .ok (prim, none) ∧ prim.length = labels.length ∧
+      ∀ v w, v < labels.length → w < labels.length →
+        (prim.getD v 0 = -1 ↔ labelCount labels (labels.getD v 0) ≤ 1) ∧
+        (prim.getD v 0 ≠ -1 → prim.getD w 0 ≠ -1 →
+          (prim.getD v 0 = prim.getD w 0 ↔ labels.getD v 0 = labels.getD w 0)) := by
+  refine ⟨labels.map (fun l => match indexIn (labelsKeep labels) l with | some i => (i : Int) | none => -1),
+    rfl, by simp, ?_⟩
+  intro v w hv hw
+  have hget : ∀ x, x < labels.length →
+      (List.map (fun l => match indexIn (labelsKeep labels) l with | some i => (i : Int) | none => -1) labels).getD x 0
+        = (match indexIn (labelsKeep labels) (labels.getD x 0) with | some i => (i : Int) | none => -1) := by
+    intro x hx
+    rw [List.getD_eq_getElem?_getD, List.getD_eq_getElem?_getD, List.getElem?_map, List.getElem?_eq_getElem hx]
+    rfl
+  have := reindexLabels_remove labels v w
+  simp only [] at this
+  rw [hget v hv, hget w hw]
+  exact this
 
 example : (louvainEmbFit 3 3 ([[0, 1, 1], [1, 0, 0], [1, 0, 0]] : Mat ℚ) [0, 0, 1] [] [] .remove).toOption.map
     (fun o => (o.labels, o.embedding)) = some ([0, 0, -1], [[1/2], [1], [1]]) := by decide +kernel
